@@ -1,7 +1,7 @@
 (** C09 -- name confinement.  Statements only; proofs in Server/NameProofs.v and Server/SummaryProofs.v. *)
 From Coq Require Import NArith List String Ascii Bool.
 From P9V Require Import Base.Str gen.ConstGen gen.HandlerGen Server.State Server.Msg Server.Handlers
-  Server.Summaries Server.NameProofs Server.SummaryProofs.
+  Server.Summaries Server.NameProofs Server.SummaryProofs Server.Refine.
 Import ListNotations.
 Open Scope N_scope.
 
@@ -23,7 +23,7 @@ Print Assumptions C09_safe_names.
 
 (** ... and that hypothesis holds after every history (all requests, all tapes, from NewServer) *)
 Theorem C09_safe_names_every_history : forall h c m tape,
-  forall call ans, In (call, ans) (log_of (step (run init_state h) c m tape)) ->
+  forall call ans, In (call, ans) (log_of (step (NameProofs.run init_state h) c m tape)) ->
     (forall n, In n (bc_names call) -> safe_name n) /\
     (is_walk call = true -> (List.length (bc_names call) <= 1)%nat).
 Proof. exact safe_names_history. Qed.
@@ -42,6 +42,35 @@ Print Assumptions C09_unsafe_rejected.
 Theorem C09_walk_unsafe : forall ref names ga w,
   forallb safe_nameb names = false -> do_walk ref names ga w = (Ok (inl (eno linux_EINVAL)), w).
 Proof. exact do_walk_unsafe. Qed.
+
+(** only through directories: before EVERY component (the first included) the walk reference's
+    recorded type is tested; if it is not a directory the component is not walked -- no Walk or
+    WalkGetAttr call is made on it, the request fails with EINVAL (all states, all tapes) *)
+Theorem C09_dirs_only : forall n rest walk qids last w,
+  is_dir (fr_mode (get_ref (w_st w) walk)) = false ->
+  walk_loop (n :: rest) walk qids last w = (dec_ref_ walk ;; fail linux_EINVAL)%m w.
+Proof. exact walk_needs_dir. Qed.
+Print Assumptions C09_dirs_only.
+(** ... and the type recorded for the fidRef of each walked component is the one the backend reported
+    for that component (so "directory" means: reported ModeDirectory by WalkGetAttr / GetAttr) *)
+Theorem C09_recorded_type_is_reported : forall n rest walk qids last w,
+  is_dir (fr_mode (get_ref (w_st w) walk)) = true -> is_deleted (w_st w) walk = false ->
+  walk_loop (n :: rest) walk qids last w =
+  (let wfr := get_ref (w_st w) walk in
+   r <- walk_one true (fr_file wfr) (fr_node wfr) [n] ;;
+   match r with
+   | inl e => dec_ref_ walk ;; ret (inl e)
+   | inr (q, h, a) =>
+       node <- node_for (fr_node wfr) n ;;
+       nr <- new_ref (plain_ref h (ftype (bv_mode a)) node (Some walk)) ;;
+       add_child (fr_node wfr) nr n ;; incref nr ;; walk_loop rest nr (qids ++ q)%list a
+   end)%m w.
+Proof. exact walk_records_reported_type. Qed.
+(** every multi-component request (Twalk, Twalkgetattr, the split attach name) goes through that loop *)
+Theorem C09_walks_use_the_loop : forall ref n rest ga w,
+  forallb safe_nameb (n :: rest) = true ->
+  do_walk ref (n :: rest) ga w = (incref ref ;; walk_loop (n :: rest) ref [] v0)%m w.
+Proof. exact do_walk_is_walk_loop. Qed.
 
 (** attach names: "" and "/" attach the root; a//b, /../x, a/./b, a/ have an unsafe component *)
 Theorem C09_attach_names :
